@@ -603,5 +603,31 @@ func buildCorpus() []seed {
 		m.ExportFunc("g", m.AddFunc(vt(i32), vt(i32), nil, a().I32Const(1).MemoryGrow().Drop().LocalGet(0).LocalGet(0).Mem(0x36, 2, 0).MemorySize().B))
 		add("mem-zero-grow", fNone, m)
 	}
+	{ // bulk memory instructions in functions WITHOUT parameters or locals: the operand stack is empty after
+		// them, so an engine that reads an immediate with another length than the validator did and decodes
+		// the leftover bytes as instructions under-flows its stack model (CompileModule panic)
+		m := &wb.Module{}
+		m.Mem = &wb.Limits{Min: 1}
+		m.DataCount = true
+		m.Datas = append(m.Datas, wb.Data{Passive: true, Bytes: []byte{1, 2}})
+		m.ExportFunc("fill", m.AddFunc(nil, nil, nil, a().I32Const(0).I32Const(0).I32Const(0).MemoryFill().B))
+		m.ExportFunc("copy", m.AddFunc(nil, nil, nil, a().I32Const(0).I32Const(0).I32Const(0).MemoryCopy().B))
+		m.ExportFunc("init", m.AddFunc(nil, nil, nil, a().I32Const(0).I32Const(0).I32Const(0).MemoryInit(0).DataDrop(0).B))
+		m.ExportFunc("sz", m.AddFunc(nil, nil, nil, a().MemorySize().Drop().I32Const(0).MemoryGrow().Drop().B))
+		add("bulk-noparams", fBR, m)
+	}
+	{ // the same for table instructions, call_indirect, ref.null and memory accesses
+		m := &wb.Module{}
+		m.Mem = &wb.Limits{Min: 1}
+		m.Tables = []wb.Table{{Elem: fref, Lim: wb.Limits{Min: 2}}, {Elem: fref, Lim: wb.Limits{Min: 2}}}
+		f0 := m.AddFunc(nil, nil, nil, nil)
+		m.Elems = append(m.Elems, wb.Elem{Mode: 1, Funcs: []uint32{f0}})
+		m.ExportFunc("ti", m.AddFunc(nil, nil, nil, a().I32Const(0).I32Const(0).I32Const(1).TableInit(0, 1).ElemDrop(0).B))
+		m.ExportFunc("tc", m.AddFunc(nil, nil, nil, a().I32Const(0).I32Const(0).I32Const(1).TableCopy(1, 0).B))
+		m.ExportFunc("tg", m.AddFunc(nil, nil, nil, a().RefNull(fref).I32Const(1).TableGrow(1).Drop().I32Const(0).RefNull(fref).I32Const(1).TableFill(0).TableSize(1).Drop().B))
+		m.ExportFunc("ci", m.AddFunc(nil, nil, nil, a().I32Const(0).CallIndirect(m.Type(nil, nil), 1).I32Const(0).TableGet(0).Drop().B))
+		m.ExportFunc("ls", m.AddFunc(nil, nil, nil, a().I32Const(0).I32Const(0).Mem(0x28, 2, 4).Mem(0x36, 2, 8).B))
+		add("table-noparams", fBR, m)
+	}
 	return out
 }
